@@ -82,7 +82,15 @@ inline constexpr struct get_tag_fn {
   }
 } get_tag{};
 
-struct Err { int code; };
+// error payloads are tracked too: an exception_ptr an operation stored (let_error's error_, materialize, …) and never
+// destructed keeps its Err alive past the end of the case (monitor !!errleak)
+static long g_err_live = 0;
+struct Err {
+  int code;
+  explicit Err(int c) noexcept : code(c) { ++g_err_live; }
+  Err(const Err& o) noexcept : code(o.code) { ++g_err_live; }
+  ~Err() { --g_err_live; }
+};
 
 // ---------------------------------------------------------------- tracked value (C02)
 static long g_tv_live = 0, g_tv_moves = 0, g_tv_throw_at = 0;
@@ -436,7 +444,7 @@ static std::string run_case(const std::string& line) {
   g_tv_moves = 0; g_tv_throw_at = 0;
   World w;
   for (size_t i = 4; i < parts.size(); ++i) { std::string t = trim(parts[i]); if (t.rfind("throw=", 0) == 0) g_tv_throw_at = atol(t.c_str() + 6); else if (t == "tok") w.tok = true; }
-  long tv_before = g_tv_live;
+  long tv_before = g_tv_live; long err_before = g_err_live;
   {
     std::stringstream ss(parts[2]); std::string tok;
     while (ss >> tok) {
@@ -488,6 +496,7 @@ static std::string run_case(const std::string& line) {
   // (C04: every callback is deregistered before the receiver is completed) - ASan reports it.
   src.request_stop();
   if (g_tv_live != tv_before) res += " | !!tvleak=" + std::to_string(g_tv_live - tv_before);
+  if (g_err_live != err_before) res += " | !!errleak=" + std::to_string(g_err_live - err_before);
   res += " # moves=" + std::to_string(g_tv_moves);
   g_tv_throw_at = 0;
   return res;
